@@ -2,14 +2,32 @@
 
 package trafficlogger
 
-// C15 end-to-end census: a real hysteria server (core/server) with the real
+// C15 end-to-end census and kick => disconnect: a real hysteria server (core/server) with the real
 // trafficStatsServerImpl as its TrafficLogger, real clients (core/client) over loopback QUIC.
-// A generated script connects, rejects, closes, proxies bytes through a local echo server and
-// kicks; after every step the harness waits for GET /online to show the expected census
-// (bounded wait of 15 s: a stale or wrong listing is a violation), and at the end compares GET /traffic
-// with the bytes that went through.
+//
+// Every LogTraffic / LogOnlineState call the server makes is recorded at the logger boundary by a
+// pass-through tap (c15Tap).  The harness holds BOTH ends of every proxied flow: the client side
+// (a hysteria TCP stream or UDP session) and the remote side (the TCP connection accepted by, or the
+// datagram socket of, a local "remote" it runs itself).  So a generated script can make the next
+// traffic report of a user come from each of the four report sites of core/server:
+//
+//   tcp up    client writes, remote reads      copy.go   LogTraffic(id, n, 0)
+//   tcp down  remote writes, client reads      copy.go   LogTraffic(id, 0, n)
+//   udp up    client sends a datagram          server.go udpIOImpl.ReceiveMessage  LogTraffic(id, n, 0)
+//   udp down  remote sends a datagram back     server.go udpIOImpl.SendMessage     LogTraffic(id, 0, n)
+//
+// on a flow opened after the kick or established (and used) before it.
+//
+// Verdict on the implementation alone, per step: bytes of a user that is not kicked arrive intact,
+// are reported (all accepted) with exactly their count in exactly their direction, and leave the
+// connection usable; the first report of a kicked user is refused, exactly once, nothing of it is
+// forwarded, the QUIC connection is closed by the server (the client sees its flow die and a later
+// proxy attempt on that connection fails), exactly one offline notification follows, and GET /online
+// drops the connection (bounded waits: a stale or wrong listing is a violation).  At the end
+// GET /traffic must show exactly the bytes that went through, per user and direction.
 
 import (
+	"bytes"
 	"crypto/ecdsa"
 	"crypto/elliptic"
 	crand "crypto/rand"
@@ -22,6 +40,7 @@ import (
 	"math/big"
 	"net"
 	"strings"
+	"sync"
 	"time"
 
 	"github.com/apernet/hysteria/core/v2/client"
@@ -29,10 +48,12 @@ import (
 )
 
 type c15Step struct {
-	A    string `json:"a"` // connect | reject | close | traffic | kick
+	A    string `json:"a"` // connect | reject | close | kick | tcp | udp
 	Slot int    `json:"slot"`
 	ID   int    `json:"id"`
 	N    int    `json:"n"`
+	Flow int    `json:"flow"` // tcp / udp: the flow to use; opened at its first step
+	Dir  string `json:"dir"`  // tcp / udp: up (client -> remote) | down (remote -> client)
 }
 
 type c15Auth struct{}
@@ -62,11 +83,117 @@ func c15Cert() (tls.Certificate, error) {
 	return tls.Certificate{Certificate: [][]byte{der}, PrivateKey: key}, nil
 }
 
-type c15E2EObs struct {
-	Step   int       `json:"step"`
-	Result string    `json:"result"` // ok | refused | rejected | error:<..>
-	Online [][]int64 `json:"online"` // listing after the step reached (or failed to reach) the expected census
+// ---------------------------------------------------------------- the tap at the logger boundary
+
+type c15TapEv struct {
+	Log    bool // LogTraffic (else LogOnlineState)
+	ID     int  // index of the id string, -1 if unknown
+	Tx, Rx uint64
+	OK     bool // LogTraffic's answer
+	On     bool // LogOnlineState's argument
 }
+
+type c15Tap struct {
+	mu    sync.Mutex
+	inner TrafficStatsServer
+	idx   map[string]int
+	evs   []c15TapEv
+}
+
+func (t *c15Tap) idOf(id string) int {
+	if i, ok := t.idx[id]; ok {
+		return i
+	}
+	return -1
+}
+
+func (t *c15Tap) LogTraffic(id string, tx, rx uint64) bool {
+	t.mu.Lock()
+	defer t.mu.Unlock()
+	ok := t.inner.LogTraffic(id, tx, rx)
+	t.evs = append(t.evs, c15TapEv{Log: true, ID: t.idOf(id), Tx: tx, Rx: rx, OK: ok})
+	return ok
+}
+
+func (t *c15Tap) LogOnlineState(id string, online bool) {
+	t.mu.Lock()
+	defer t.mu.Unlock()
+	t.inner.LogOnlineState(id, online)
+	t.evs = append(t.evs, c15TapEv{ID: t.idOf(id), On: online})
+}
+
+func (t *c15Tap) TraceStream(stream server.HyStream, stats *server.StreamStats) {
+	t.inner.TraceStream(stream, stats)
+}
+func (t *c15Tap) UntraceStream(stream server.HyStream) { t.inner.UntraceStream(stream) }
+
+func (t *c15Tap) mark() int {
+	t.mu.Lock()
+	defer t.mu.Unlock()
+	return len(t.evs)
+}
+
+func (t *c15Tap) since(mark int) []c15TapEv {
+	t.mu.Lock()
+	defer t.mu.Unlock()
+	return append([]c15TapEv(nil), t.evs[mark:]...)
+}
+
+func (t *c15Tap) refusedSince(mark, id int) int {
+	n := 0
+	for _, e := range t.since(mark) {
+		if e.Log && e.ID == id && !e.OK {
+			n++
+		}
+	}
+	return n
+}
+
+// ---------------------------------------------------------------- flows
+
+type c15Rx struct {
+	data []byte
+	addr net.Addr
+	err  error
+}
+
+type c15Flow struct {
+	udp  bool
+	slot int
+	// tcp: both ends
+	cc, rc net.Conn
+	// udp: client session, datagrams it received, and the server's outbound socket as the remote saw it
+	uc   client.HyUDPConn
+	rx   chan c15Rx
+	peer net.Addr
+}
+
+func (f *c15Flow) close() {
+	if f.cc != nil {
+		_ = f.cc.Close()
+	}
+	if f.rc != nil {
+		_ = f.rc.Close()
+	}
+	if f.uc != nil {
+		_ = f.uc.Close()
+	}
+}
+
+type c15E2EObs struct {
+	Step    int        `json:"step"`
+	Result  string     `json:"result"`  // ok | refused | rejected | skipped | error:<..>
+	Reports [][]uint64 `json:"reports"` // LogTraffic calls seen during the step: [id, tx, rx, accepted]
+	Ups     []int      `json:"ups"`     // LogOnlineState(id, true) calls seen during the step
+	Downs   []int      `json:"downs"`   // LogOnlineState(id, false) calls seen during the step
+	Alive   *bool      `json:"alive"`   // tcp / udp steps: did a proxy attempt on the connection succeed afterwards?
+	Online  [][]int64  `json:"online"`  // listing after the step reached (or failed to reach) the expected census
+}
+
+const (
+	c15Deliver = 15 * time.Second // bound on a transfer (or its refusal) becoming visible
+	c15Die     = 5 * time.Second  // bound on a refused connection becoming unusable for the client
+)
 
 func c15E2E(c c15Case, steps []c15Step, res map[string]any) {
 	ok, why := true, ""
@@ -85,6 +212,8 @@ func c15E2E(c c15Case, steps []c15Step, res map[string]any) {
 		return
 	}
 	stats := NewTrafficStatsServer(c.Secret)
+	idx := c15Index(c.Ids)
+	tap := &c15Tap{inner: stats, idx: idx}
 	udpConn, err := net.ListenUDP("udp", &net.UDPAddr{IP: net.IPv4(127, 0, 0, 1)})
 	if err != nil {
 		fail("setup: %v", err)
@@ -94,7 +223,7 @@ func c15E2E(c c15Case, steps []c15Step, res map[string]any) {
 		TLSConfig:     server.TLSConfig{Certificates: []tls.Certificate{cert}},
 		Conn:          udpConn,
 		Authenticator: c15Auth{},
-		TrafficLogger: stats,
+		TrafficLogger: tap,
 	})
 	if err != nil {
 		fail("setup: %v", err)
@@ -102,23 +231,62 @@ func c15E2E(c c15Case, steps []c15Step, res map[string]any) {
 	}
 	defer srv.Close()
 	go srv.Serve()
-	echo, err := net.Listen("tcp", "127.0.0.1:0")
+
+	// the remote the proxied TCP flows end at: the harness keeps every accepted connection
+	remote, err := net.Listen("tcp", "127.0.0.1:0")
 	if err != nil {
 		fail("setup: %v", err)
 		return
 	}
-	defer echo.Close()
+	defer remote.Close()
+	accepted := make(chan net.Conn, 16)
 	go func() {
 		for {
-			conn, err := echo.Accept()
+			conn, err := remote.Accept()
 			if err != nil {
 				return
 			}
-			go func() { _, _ = io.Copy(conn, conn); _ = conn.Close() }()
+			accepted <- conn
+		}
+	}()
+	// the target of the "is this connection still usable" probes: accepts and hangs up, no byte flows
+	probe, err := net.Listen("tcp", "127.0.0.1:0")
+	if err != nil {
+		fail("setup: %v", err)
+		return
+	}
+	defer probe.Close()
+	go func() {
+		for {
+			conn, err := probe.Accept()
+			if err != nil {
+				return
+			}
+			_ = conn.Close()
+		}
+	}()
+	// the remote of the proxied UDP sessions
+	remoteUDP, err := net.ListenUDP("udp", &net.UDPAddr{IP: net.IPv4(127, 0, 0, 1)})
+	if err != nil {
+		fail("setup: %v", err)
+		return
+	}
+	defer remoteUDP.Close()
+	udpIn := make(chan c15Rx, 64)
+	go func() {
+		for {
+			buf := make([]byte, 4096)
+			n, addr, err := remoteUDP.ReadFrom(buf)
+			if err != nil {
+				return
+			}
+			select {
+			case udpIn <- c15Rx{data: buf[:n], addr: addr}:
+			default:
+			}
 		}
 	}()
 
-	idx := c15Index(c.Ids)
 	n := len(c.Ids)
 	httpOp := func(method, path, body string) c15Res {
 		r := c15Do(stats, c.Ids, idx, c15Op{O: "http", HasAuth: true, Auth: c.Secret, Method: method, Path: path, Body: body})
@@ -127,19 +295,36 @@ func c15E2E(c c15Case, steps []c15Step, res map[string]any) {
 	}
 	slots := map[int]client.Client{}
 	slotID := map[int]int{}
+	flows := map[int]*c15Flow{}
 	live := make([]int64, n)
 	pending := make([]bool, n)
-	sent := make([]uint64, n) // bytes proxied successfully per id (each direction)
+	sent := make([][2]uint64, n) // bytes that went through per id: [up, down]
 	obs := []c15E2EObs{}
 	defer func() {
+		for _, f := range flows {
+			f.close()
+		}
 		for _, cl := range slots {
 			_ = cl.Close()
 		}
 	}()
+	dropSlot := func(slot int) {
+		for k, f := range flows {
+			if f.slot == slot {
+				f.close()
+				delete(flows, k)
+			}
+		}
+		delete(slots, slot)
+	}
 
 	// wait (bounded) until the listing equals the expected census
 	census := func() ([][]int64, bool) {
-		deadline := time.Now().Add(15 * time.Second)
+		bound := 15 * time.Second
+		if !ok {
+			bound = time.Second // the verdict is already "violated": do not spend the full bound again
+		}
+		deadline := time.Now().Add(bound)
 		for {
 			r := httpOp("GET", "/online", "")
 			seen := make([]int64, n)
@@ -164,9 +349,70 @@ func c15E2E(c c15Case, steps []c15Step, res map[string]any) {
 			time.Sleep(5 * time.Millisecond)
 		}
 	}
+	// one proxy attempt on the connection that moves no byte (so it makes no traffic report)
+	usable := func(cl client.Client) bool {
+		conn, err := cl.TCP(probe.Addr().String())
+		if err != nil {
+			return false
+		}
+		_ = conn.Close()
+		return true
+	}
+	// what became of a transfer: delivered | refused | error | timeout
+	outcome := func(rxc <-chan c15Rx, want []byte, id, mark int) (string, int, net.Addr) {
+		deadline := time.After(c15Deliver)
+		tick := time.NewTicker(2 * time.Millisecond)
+		defer tick.Stop()
+		for {
+			select {
+			case r := <-rxc:
+				if r.err == nil && bytes.Equal(r.data, want) {
+					return "delivered", len(r.data), r.addr
+				}
+				if r.err == nil && len(r.data) == len(want) {
+					return "error:corrupted", len(r.data), nil
+				}
+				if r.err == nil {
+					continue // a stale datagram
+				}
+				if tap.refusedSince(mark, id) > 0 {
+					return "refused", len(r.data), nil
+				}
+				return "error:" + c15ErrClass(r.err), len(r.data), nil
+			case <-tick.C:
+				if tap.refusedSince(mark, id) > 0 {
+					// give the receiving end a moment to see what the refusal did to the flow
+					select {
+					case r := <-rxc:
+						if r.err == nil && bytes.Equal(r.data, want) {
+							return "delivered", len(r.data), r.addr
+						}
+						return "refused", len(r.data), nil
+					case <-time.After(300 * time.Millisecond):
+						return "refused", 0, nil
+					}
+				}
+			case <-deadline:
+				return "timeout", 0, nil
+			}
+		}
+	}
+	readN := func(conn net.Conn, k int) <-chan c15Rx {
+		ch := make(chan c15Rx, 1)
+		go func() {
+			_ = conn.SetReadDeadline(time.Now().Add(c15Deliver + 5*time.Second))
+			buf := make([]byte, k)
+			got, err := io.ReadFull(conn, buf)
+			ch <- c15Rx{data: buf[:got], err: err}
+		}()
+		return ch
+	}
 
 	for si, st := range steps {
 		result := "ok"
+		mark := tap.mark()
+		var alive *bool
+		wantDowns, wantUps := []int{}, []int{}
 		switch st.A {
 		case "connect", "reject":
 			auth := "ok:" + c.Ids[st.ID]
@@ -190,12 +436,16 @@ func c15E2E(c c15Case, steps []c15Step, res map[string]any) {
 				slots[st.Slot] = cl
 				slotID[st.Slot] = st.ID
 				live[st.ID]++
+				wantUps = append(wantUps, st.ID)
 			}
 		case "close":
 			if cl, has := slots[st.Slot]; has {
 				_ = cl.Close()
-				delete(slots, st.Slot)
+				dropSlot(st.Slot)
 				live[slotID[st.Slot]]--
+				wantDowns = append(wantDowns, slotID[st.Slot])
+			} else {
+				result = "skipped"
 			}
 		case "kick":
 			body, _ := json.Marshal([]string{c.Ids[st.ID]})
@@ -203,67 +453,220 @@ func c15E2E(c c15Case, steps []c15Step, res map[string]any) {
 				fail("step %d: kick answered %d", si, r.St)
 			}
 			pending[st.ID] = true
-		case "traffic":
+		case "tcp", "udp":
 			cl, has := slots[st.Slot]
 			if !has {
 				result = "skipped"
 				break
 			}
 			id := slotID[st.Slot]
-			err := func() error {
-				conn, err := cl.TCP(echo.Addr().String())
-				if err != nil {
-					return err
-				}
-				defer conn.Close()
-				_ = conn.SetDeadline(time.Now().Add(20 * time.Second))
-				msg := vGenData(7, uint64(si), st.N)
-				if _, err := conn.Write(msg); err != nil {
-					return err
-				}
-				back := make([]byte, st.N)
-				if _, err := io.ReadFull(conn, back); err != nil {
-					return err
-				}
-				if string(back) != string(msg) {
-					return fmt.Errorf("echo mismatch")
-				}
-				return nil
-			}()
-			if pending[id] {
-				// the kicked user's next report must be refused, which disconnects this connection
-				if err == nil {
-					fail("step %d: id %d was kicked but its next %d bytes were proxied", si, id, st.N)
-					sent[id] += uint64(st.N)
+			site := st.A + " " + st.Dir
+			msg := vGenData(7, uint64(si), st.N)
+			// open the flow at its first step (opening moves no byte: no report)
+			f := flows[st.Flow]
+			if f == nil {
+				f = &c15Flow{udp: st.A == "udp", slot: st.Slot}
+				if f.udp {
+					uc, err := cl.UDP()
+					if err != nil {
+						fail("step %d: id %d could not open a UDP session: %v", si, id, err)
+						result = "error:open"
+						break
+					}
+					f.uc = uc
+					f.rx = make(chan c15Rx, 16)
+					go func(f *c15Flow) {
+						for {
+							b, _, err := f.uc.Receive()
+							if err != nil {
+								f.rx <- c15Rx{err: err}
+								return
+							}
+							select {
+							case f.rx <- c15Rx{data: b}:
+							default:
+							}
+						}
+					}(f)
 				} else {
-					result = "refused"
+					cc, err := cl.TCP(remote.Addr().String())
+					if err != nil {
+						fail("step %d: id %d could not open a TCP stream: %v", si, id, err)
+						result = "error:open"
+						break
+					}
+					f.cc = cc
+					select {
+					case f.rc = <-accepted:
+					case <-time.After(c15Deliver):
+						_ = cc.Close()
+						fail("step %d: the remote never saw the TCP connection of id %d", si, id)
+						result = "error:open"
+					}
+					if f.rc == nil {
+						break
+					}
+				}
+				flows[st.Flow] = f
+			}
+			if f.udp != (st.A == "udp") || f.slot != st.Slot || (f.udp && st.Dir == "down" && f.peer == nil) {
+				result = "skipped" // a script the generator does not produce
+				break
+			}
+			// move the bytes
+			var rxc <-chan c15Rx
+			var serr error
+			switch {
+			case !f.udp && st.Dir == "up":
+				rxc = readN(f.rc, st.N)
+				_ = f.cc.SetWriteDeadline(time.Now().Add(c15Deliver))
+				_, serr = f.cc.Write(msg)
+			case !f.udp && st.Dir == "down":
+				rxc = readN(f.cc, st.N)
+				_ = f.rc.SetWriteDeadline(time.Now().Add(c15Deliver))
+				_, serr = f.rc.Write(msg)
+			case f.udp && st.Dir == "up":
+				for drained := false; !drained; {
+					select {
+					case <-udpIn:
+					default:
+						drained = true
+					}
+				}
+				rxc = udpIn
+				serr = f.uc.Send(msg, remoteUDP.LocalAddr().String())
+			default:
+				rxc = f.rx
+				_, serr = remoteUDP.WriteTo(msg, f.peer)
+			}
+			how, got := "error:send", 0
+			if serr == nil {
+				var from net.Addr
+				how, got, from = outcome(rxc, msg, id, mark)
+				if how == "delivered" && f.udp && st.Dir == "up" {
+					f.peer = from // the server's outbound socket of this session, for later "down" steps
+				}
+			}
+			evs := tap.since(mark)
+			var tx, rx uint64
+			nrep, nref, nother := 0, 0, 0
+			for _, e := range evs {
+				if !e.Log {
+					continue
+				}
+				if e.ID != id {
+					nother++
+					continue
+				}
+				nrep++
+				if e.OK {
+					tx += e.Tx
+					rx += e.Rx
+				} else {
+					nref++
+				}
+			}
+			if nother > 0 {
+				fail("step %d: %d traffic report(s) for a user that moved no byte", si, nother)
+			}
+			switch {
+			case how == "delivered" && pending[id]:
+				fail("step %d: id %d was kicked but its next %d bytes (%s) were proxied", si, id, st.N, site)
+				pending[id] = false
+				sent[id][c15DirIx(st.Dir)] += uint64(st.N)
+			case how == "delivered":
+				sent[id][c15DirIx(st.Dir)] += uint64(st.N)
+				wtx, wrx := uint64(st.N), uint64(0)
+				if st.Dir == "down" {
+					wtx, wrx = 0, uint64(st.N)
+				}
+				if nref != 0 {
+					fail("step %d: LogTraffic(id %d) refused %d report(s) with no kick pending", si, id, nref)
+				} else if tx != wtx || rx != wrx {
+					fail("step %d: conservation broken end to end: %d bytes went %s for id %d, the accepted reports say tx=%d rx=%d",
+						si, st.N, site, id, tx, rx)
+				}
+				a := usable(cl)
+				alive = &a
+				if !a {
+					fail("step %d: id %d (not kicked) lost its connection after an accepted %s report", si, id, site)
 					_ = cl.Close()
-					delete(slots, st.Slot)
+					dropSlot(st.Slot)
 					live[id]--
 				}
+			case how == "refused" && !pending[id]:
+				result = "refused"
+				fail("step %d: LogTraffic(id %d) refused a %s report with no kick pending", si, id, site)
+			case how == "refused":
+				result = "refused"
 				pending[id] = false
-			} else if err != nil {
-				fail("step %d: id %d (not kicked) could not proxy %d bytes: %v", si, id, st.N, err)
-				result = "error:traffic"
-			} else {
-				sent[id] += uint64(st.N)
+				if nref != 1 || nrep != 1 {
+					fail("step %d: id %d was kicked once; its next reports (%s): %d made, %d refused (expected exactly one, refused)", si, id, site, nrep, nref)
+				}
+				if got > 0 {
+					fail("step %d: %d bytes of the refused %s report of id %d were forwarded", si, got, site, id)
+				}
+				// the refusal must disconnect the user: the connection becomes unusable for the client
+				t0 := time.Now()
+				a := usable(cl)
+				for a && time.Since(t0) < c15Die && ok {
+					time.Sleep(10 * time.Millisecond)
+					a = usable(cl)
+				}
+				alive = &a
+				if a {
+					fail("step %d: id %d was kicked and its next report (%s) was refused, but the user was not disconnected: "+
+						"a proxy attempt on that connection still succeeds %.1fs later", si, id, site, time.Since(t0).Seconds())
+					_ = cl.Close()
+				}
+				dropSlot(st.Slot)
+				live[id]--
+				wantDowns = append(wantDowns, id)
+			default:
+				if pending[id] {
+					fail("step %d: id %d was kicked; its next transfer (%s, %d bytes) was neither refused nor proxied: %s", si, id, site, st.N, how)
+				} else {
+					fail("step %d: id %d (not kicked) could not proxy %d bytes (%s): %s", si, id, st.N, site, how)
+				}
+				result = how
+				if !strings.HasPrefix(result, "error") {
+					result = "error:" + how
+				}
 			}
 		}
 		on, good := census()
 		if !good {
-			fail("step %d (%s): GET /online shows %v, expected census %v (after 15s)", si, st.A, on, live)
+			fail("step %d (%s): GET /online shows %v, expected census %v (bounded wait expired)", si, st.A, on, live)
 		}
-		obs = append(obs, c15E2EObs{Step: si, Result: result, Online: on})
+		ob := c15E2EObs{Step: si, Result: result, Alive: alive, Online: on, Reports: [][]uint64{}, Ups: []int{}, Downs: []int{}}
+		for _, e := range tap.since(mark) {
+			switch {
+			case e.Log:
+				b := uint64(0)
+				if e.OK {
+					b = 1
+				}
+				ob.Reports = append(ob.Reports, []uint64{uint64(int64(e.ID)), e.Tx, e.Rx, b})
+			case e.On:
+				ob.Ups = append(ob.Ups, e.ID)
+			default:
+				ob.Downs = append(ob.Downs, e.ID)
+			}
+		}
+		if !c15SameInts(ob.Ups, wantUps) || !c15SameInts(ob.Downs, wantDowns) {
+			fail("step %d (%s): online notifications online=%v offline=%v, expected online=%v offline=%v", si, st.A, ob.Ups, ob.Downs, wantUps, wantDowns)
+		}
+		obs = append(obs, ob)
 	}
-	// traffic totals: every proxied byte was reported once in each direction, refused reports added nothing
+	// traffic totals: every byte that went through was reported once, in its direction; refused reports added nothing
 	tr := httpOp("GET", "/traffic", "")
 	shown := make([][2]uint64, n)
 	for _, e := range tr.M {
 		shown[e[0]] = [2]uint64{e[1], e[2]}
 	}
 	for id := 0; id < n; id++ {
-		if shown[id][0] != sent[id] || shown[id][1] != sent[id] {
-			fail("final snapshot shows tx=%d rx=%d for id %d, proxied %d each way", shown[id][0], shown[id][1], id, sent[id])
+		if shown[id] != sent[id] {
+			fail("final snapshot shows tx=%d rx=%d for id %d, proxied %d up and %d down", shown[id][0], shown[id][1], id, sent[id][0], sent[id][1])
 		}
 	}
 	if tr.M == nil {
@@ -271,4 +674,33 @@ func c15E2E(c c15Case, steps []c15Step, res map[string]any) {
 	}
 	res["obs"] = obs
 	res["final"] = tr.M
+}
+
+func c15DirIx(dir string) int {
+	if dir == "down" {
+		return 1
+	}
+	return 0
+}
+
+func c15SameInts(a, b []int) bool {
+	if len(a) != len(b) {
+		return false
+	}
+	for i := range a {
+		if a[i] != b[i] {
+			return false
+		}
+	}
+	return true
+}
+
+func c15ErrClass(err error) string {
+	if err == io.EOF || err == io.ErrUnexpectedEOF {
+		return "eof"
+	}
+	if ne, ok := err.(net.Error); ok && ne.Timeout() {
+		return "timeout"
+	}
+	return "closed"
 }
